@@ -88,6 +88,8 @@ module Coq_Pos :
 
   val mul : positive -> positive -> positive
 
+  val iter : ('a1 -> 'a1) -> 'a1 -> positive -> 'a1
+
   val compare_cont : comparison -> positive -> positive -> comparison
 
   val compare : positive -> positive -> comparison
@@ -138,13 +140,31 @@ module Z :
 
   val mul : z -> z -> z
 
+  val pow_pos : z -> positive -> z
+
+  val pow : z -> z -> z
+
   val compare : z -> z -> comparison
+
+  val leb : z -> z -> bool
 
   val ltb : z -> z -> bool
 
   val eqb : z -> z -> bool
 
+  val max : z -> z -> z
+
+  val min : z -> z -> z
+
+  val abs : z -> z
+
   val of_N : n -> z
+
+  val pos_div_eucl : positive -> z -> z * z
+
+  val div_eucl : z -> z -> z * z
+
+  val modulo : z -> z -> z
 
   val quotrem : z -> z -> z * z
 
@@ -160,6 +180,8 @@ type scalar = { s0 : __; s1 : __; sadd : (__ -> __ -> __);
 type t = __
 
 val zS : scalar
+
+val wrap : z -> z -> z
 
 val zC : scalar
 
@@ -224,6 +246,10 @@ val wr_store : scalar -> int -> int -> vec -> wr
 val wr_maskstore : scalar -> int -> maska_t -> int -> vec -> wr
 
 val wr_store1 : scalar -> int -> t -> wr
+
+val store : scalar -> buf -> int -> int -> vec -> buf
+
+val store1 : scalar -> buf -> int -> t -> buf
 
 val sum_from : scalar -> int -> int -> (int -> t) -> t -> t
 
@@ -326,6 +352,45 @@ val tmatmul :
   scalar -> cfg -> ety -> int -> int -> int -> int -> int -> (int -> t) ->
   (int -> t) -> (int -> t) -> int -> t
 
+type sops = { s_un : (int -> t -> t); s_bin : (int -> t -> t -> t) }
+
+type vops = { v_un : (int -> vec -> vec); v_bin : (int -> vec -> vec -> vec) }
+
+type expr =
+| ELeaf of int
+| EConst of t
+| EUn of int * expr
+| EBin of int * expr * expr
+
+type mem = int -> buf
+
+val eval_s : scalar -> sops -> mem -> expr -> int -> t
+
+val eval_v : scalar -> vops -> mem -> expr -> int -> vec
+
+val upd : scalar -> mem -> int -> buf -> mem
+
+val step_vec :
+  scalar -> sops -> vops -> int -> int -> int option -> expr -> mem -> int ->
+  mem
+
+val step_scal :
+  scalar -> sops -> int -> int option -> expr -> mem -> int -> mem
+
+val assign :
+  scalar -> sops -> vops -> int -> int -> int -> bool -> int option -> expr
+  -> mem -> mem
+
+val vops_of : scalar -> sops -> vops
+
+val b2z : bool -> z
+
+val int_un : z -> int -> z -> z
+
+val int_bin : z -> int -> z -> z -> z
+
+val int_sops : z -> sops
+
 val run_matmul_Z :
   cfg -> ety -> int -> int -> int -> z list -> z list -> z list
 
@@ -341,3 +406,6 @@ val run_tmatmul_Z :
 val run_tmatmul_C :
   cfg -> ety -> int -> int -> int -> int -> int -> (z * z) list -> (z * z)
   list -> (z * z) list
+
+val run_assign_Z :
+  z -> int -> int -> bool -> int option -> expr -> z list list -> z list
